@@ -13,6 +13,9 @@
 static int
 uses_iv(const struct item *it)
 {
+        /* PON without ciphering (msg_len_to_cipher = 0) needs neither key nor IV */
+        if (it->cipher == IMB_CIPHER_PON_AES_CNTR && it->c_len == 0)
+                return 0;
         return it->iv_len != 0;
 }
 static int
@@ -52,6 +55,7 @@ cipher_needs_len(IMB_CIPHER_MODE c)
         case IMB_CIPHER_SNOW_V_AEAD:
         case IMB_CIPHER_SM4_GCM:
         case IMB_CIPHER_DOCSIS_SEC_BPI:
+        case IMB_CIPHER_PON_AES_CNTR:
         case IMB_CIPHER_CFB:
         case IMB_CIPHER_NULL:
         case IMB_CIPHER_CUSTOM:
@@ -90,13 +94,14 @@ imbv_perturb(const struct item *it, int idx, IMB_JOB *job, struct pert *p, const
         const IMB_HASH_ALG h = it->hash;
         const int has_c = c != IMB_CIPHER_NULL, has_h = h != IMB_AUTH_NULL;
         const int dec = it->dir == IMB_DIR_DECRYPT;
+        const int pon_nocipher = c == IMB_CIPHER_PON_AES_CNTR && it->c_len == 0;
         memset(p, 0, sizeof *p);
 
         /* ---- pointers */
         ENTRY(has_c || (has_h && it->h_len), "src=NULL") { job->src = NULL; ACC1(IMB_ERR_JOB_NULL_SRC); return 1; }
         ENTRY(has_c && it->c_len, "dst=NULL") { job->dst = NULL; ACC1(IMB_ERR_JOB_NULL_DST); return 1; }
         ENTRY(has_c && uses_iv(it), "iv=NULL") { job->iv = NULL; ACC1(IMB_ERR_JOB_NULL_IV); return 1; }
-        ENTRY(has_c && c != IMB_CIPHER_DES3 && (!dec || c == IMB_CIPHER_CNTR || c == IMB_CIPHER_CNTR_BITLEN ||
+        ENTRY(has_c && c != IMB_CIPHER_DES3 && !pon_nocipher && (!dec || c == IMB_CIPHER_PON_AES_CNTR || c == IMB_CIPHER_CNTR || c == IMB_CIPHER_CNTR_BITLEN ||
                                                 c == IMB_CIPHER_DOCSIS_SEC_BPI || c == IMB_CIPHER_CCM || c == IMB_CIPHER_CHACHA20 ||
                                                 c == IMB_CIPHER_CHACHA20_POLY1305 || c == IMB_CIPHER_ZUC_EEA3 ||
                                                 c == IMB_CIPHER_SNOW3G_UEA2_BITLEN || c == IMB_CIPHER_KASUMI_UEA1_BITLEN ||
@@ -185,7 +190,7 @@ imbv_perturb(const struct item *it, int idx, IMB_JOB *job, struct pert *p, const
                 default:
                         legal = kl == 16;
                 }
-                if (!has_c || c == IMB_CIPHER_CUSTOM)
+                if (!has_c || c == IMB_CIPHER_CUSTOM || pon_nocipher)
                         legal = 1;
                 ENTRY(!legal, "key_len=illegal") {
                         snprintf(p->name, sizeof p->name, "key_len=%u", kl);
@@ -268,6 +273,33 @@ imbv_perturb(const struct item *it, int idx, IMB_JOB *job, struct pert *p, const
                         ENTRY((int) c == pairs[i].c, "aead.hash=NULL") { job->hash_alg = IMB_AUTH_NULL; ACC2(IMB_ERR_HASH_ALGO, IMB_ERR_CIPH_MODE); return 1; }
                         ENTRY((int) c == pairs[i].c, "aead.cipher=CNTR") { job->cipher_mode = IMB_CIPHER_CNTR; job->key_len_in_bytes = 16; job->iv_len_in_bytes = 16; ACC2(IMB_ERR_HASH_ALGO, IMB_ERR_CIPH_MODE); return 1; }
                         ENTRY((int) c == pairs[i].c, "aead.cipher=NULL") { job->cipher_mode = IMB_CIPHER_NULL; ACC2(IMB_ERR_HASH_ALGO, IMB_ERR_CIPH_MODE); return 1; }
+                }
+        }
+        /* ---- PON (XGEM frame) geometry */
+        {
+                const int pon = c == IMB_CIPHER_PON_AES_CNTR;
+                const uint32_t pay = pon ? it->h_len - 8 : 0;
+                ENTRY(pon && it->c_len, "pon.cipher_len%4") { job->msg_len_to_cipher_in_bytes = it->c_len - 1; ACC1(IMB_ERR_JOB_CIPH_LEN); return 1; }
+                ENTRY(pon, "pon.hash_len%4") { job->msg_len_to_hash_in_bytes = it->h_len + 2; ACC1(IMB_ERR_JOB_AUTH_LEN); return 1; }
+                ENTRY(pon, "pon.hash_len<8") { job->msg_len_to_hash_in_bytes = 4; job->msg_len_to_cipher_in_bytes = 0; ACC2(IMB_ERR_JOB_AUTH_LEN, IMB_ERR_JOB_PON_PLI); return 1; }
+                ENTRY(pon, "pon.hash_len=max+4") { job->msg_len_to_hash_in_bytes = (1 << 14) + 8 + 4; ACC2(IMB_ERR_JOB_AUTH_LEN, IMB_ERR_JOB_CIPH_LEN); return 1; }
+                ENTRY(pon, "pon.dst!=src+8") { job->dst = it->src + 12; p->nacc = 1; p->acc[0] = -1; return 1; }
+                ENTRY(pon && it->c_len, "pon.key_len=32") { job->key_len_in_bytes = 32; ACC1(IMB_ERR_JOB_KEY_LEN); return 1; }
+                ENTRY(pon && it->c_len, "pon.iv_len=12") { job->iv_len_in_bytes = 12; ACC1(IMB_ERR_JOB_IV_LEN); return 1; }
+                ENTRY(pon, "pon.hash=SHA1") { job->hash_alg = IMB_AUTH_SHA_1; job->auth_tag_output_len_in_bytes = 20; ACC2(IMB_ERR_HASH_ALGO, IMB_ERR_CIPH_MODE); return 1; }
+                ENTRY(pon, "pon.cipher=CNTR") { job->cipher_mode = IMB_CIPHER_CNTR; p->nacc = 1; p->acc[0] = -1; return 1; }
+                /* PLI larger than the payload the job describes: with and without ciphering */
+                ENTRY(pon && it->c_len && it->pon_pli > 8 && pay >= 8, "pon.pli>cipher_len") {
+                        job->msg_len_to_cipher_in_bytes = ((it->pon_pli + 3) & ~3u) - 4;
+                        job->msg_len_to_hash_in_bytes = 8 + job->msg_len_to_cipher_in_bytes;
+                        ACC1(IMB_ERR_JOB_PON_PLI);
+                        return 1;
+                }
+                ENTRY(pon && it->pon_pli > 8 && pay >= 8, "pon.pli>frame(no-cipher)") {
+                        job->msg_len_to_cipher_in_bytes = 0;
+                        job->msg_len_to_hash_in_bytes = 8 + ((it->pon_pli + 3) & ~3u) - 4;
+                        ACC1(IMB_ERR_JOB_PON_PLI);
+                        return 1;
                 }
         }
         ENTRY(h == IMB_AUTH_DOCSIS_CRC32, "docsis_crc.cipher=CBC") { job->cipher_mode = IMB_CIPHER_CBC; job->msg_len_to_cipher_in_bytes = 16; ACC2(IMB_ERR_HASH_ALGO, IMB_ERR_CIPH_MODE); return 1; }
